@@ -138,6 +138,18 @@ def c19(tier):
             c.oblige(not bad, "no_std-links-%s" % ",".join(bad), {"rule": "no_std-dependency", "detail": "the --no-default-features build depends on crate(s) %s" % bad})
             c.oblige("feature=\"std\"" not in prog.cfgs, "no_std-feature", {"rule": "no_std-feature", "detail": "std feature active in the no-default-features build"})
         cov.append({"config": cfg + "-" + prof, "instances_in_cones": ncall, "callee_crates": crates, "linked_crates": prog.f["crates"]})
+    # every no_std switch combination must type-check against core alone
+    jobs = [j for j in lattice_jobs() if not j["std"]]
+    with cf.ThreadPoolExecutor(max_workers=int(os.environ.get("VERIF_PROCS", "16"))) as ex:
+        lres = list(ex.map(run_lattice_job, jobs))
+    for r in lres:
+        j = r["job"]
+        name = "no_std,disable_simd=%s,disable_compiletime=%s,target_feature=%s" % (j["disable_simd"], j["disable_compiletime"], j["target_feature"] or "-")
+        c.oblige(r["built"], "no_std-combo-does-not-build|%s" % name, {"rule": "no_std-combo-does-not-build", "detail": "the std-less build with switches %s does not compile: %s" % (name, r.get("log", "")[-500:])})
+        if r["built"]:
+            bad = [x for x in r["crates"] if x in ("std", "alloc")]
+            c.oblige(not bad, "no_std-links|%s" % name, {"rule": "no_std-dependency", "detail": "combination %s links %s" % (name, bad)})
+    c.coverage["no_std_switch_combinations"] = len(lres)
     c.coverage["configs"] = cov
     c.coverage["explanation"] = "crate of every instance in the transitive monomorphic cone of the entry points is the crate itself or core (plus std_detect feature probes); no local of an allocating type; no_std build has no std/alloc dependency"
     for x in cov[:3]:
